@@ -121,14 +121,25 @@ type sess struct {
 	curKey  int
 	conf    map[string]interface{}
 	rootPEM map[int]string // CA key index -> root cert PEM generated for it
+
+	// deep fingerprint of the root and config rows right after the last applied CA command
+	lastDeep string
+	// fault injection into the manager's raft-apply entry point
+	faultArmed bool
+	faultFinal bool // hit the conditional roots(+config) write instead of position faultPos
+	faultPos   int
+	faultMode  string // error | false | cas-loser
+	caCount    int
 }
 
 func newSess(run *hx.Run, bare bool, start uint64) *sess {
 	s := &sess{run: run, bare: bare, labels: map[string]string{}, nlab: map[string]int{}, serials: map[uint64]bool{}, rootPEM: map[int]string{}}
 	s.d = consul.VerifNewCADelegate12(localDC, start)
 	s.d.OnCA = s.onCA
+	s.d.PreCA = s.preCA
 	s.line("new "+hx.EncS(localDC), "ok")
 	s.prev = s.snap()
+	s.lastDeep = s.deep()
 	return s
 }
 
@@ -260,6 +271,121 @@ func (c caSnap) cfgString() string {
 	return fmt.Sprintf("%+v", *c.cfg)
 }
 
+// deep renders every field of the objects the store holds for roots and config (the very
+// objects a reader gets pointers to), so that a change made through such a pointer — outside any
+// transaction — is visible.
+func (s *sess) deep() string {
+	st := s.d.State()
+	_, roots, err := st.CARoots(nil)
+	if err != nil {
+		panic(err)
+	}
+	var sb strings.Builder
+	for _, r := range roots {
+		fmt.Fprintf(&sb, "%+v\n", *r)
+	}
+	_, cfg, err := st.CAConfig(nil)
+	if err != nil {
+		panic(err)
+	}
+	if cfg != nil {
+		fmt.Fprintf(&sb, "cfg %+v\n", *cfg)
+	}
+	return sb.String()
+}
+
+// checkStore is run before every sign, after every manager operation (successful or failed)
+// and inside the delegate's apply hook (request prepared, nothing committed yet):
+//   * the root and config rows are exactly what the last applied command left (no write through
+//     pointers returned by read-only queries, no change outside a Raft apply),
+//   * the root table is empty or has exactly one active root,
+//   * (settled only) the root the leader signs with is the one the store marks active.
+func (s *sess) checkStore(when string, settled bool) {
+	cur := s.snap()
+	nact, pact := 0, 0
+	for _, r := range cur.roots {
+		if r.active {
+			nact++
+		}
+	}
+	for _, r := range s.prev.roots {
+		if r.active {
+			pact++
+		}
+	}
+	if d := s.deep(); d != s.lastDeep {
+		sig := "ca:ca-tables-changed-outside-raft-apply"
+		if pact == 1 && nact == 0 && len(cur.roots) == len(s.prev.roots) {
+			sig = "ca:active-root-deactivated-in-store-outside-raft-apply"
+		}
+		s.violate(sig, fmt.Sprintf("%s: last applied command left [%s], the store now holds [%s]", when, s.prev.rootsString(), cur.rootsString()))
+		s.lastDeep = d
+	}
+	if len(cur.roots) > 0 && nact != 1 {
+		s.violate(fmt.Sprintf("ca:store-has-%d-active-roots", nact), fmt.Sprintf("%s: %s", when, cur.rootsString()))
+	}
+	if settled && s.m != nil {
+		mr := consul.VerifProviderRoot12(s.m)
+		_, active, _ := s.d.State().CARootActive(nil)
+		ar := ""
+		if active != nil {
+			ar = active.ID
+		}
+		if mr != "" && mr != ar {
+			s.violate("ca:leader-signs-with-a-root-the-store-does-not-mark-active", fmt.Sprintf("%s: manager root %s, store active root %q", when, s.label("r", mr), s.label("r", ar)))
+		}
+	}
+}
+
+// preCA: the manager (or its provider) prepared a CA request and asks for it to be applied.
+func (s *sess) preCA(req *structs.CARequest) (interface{}, error, bool) {
+	if s.inSign {
+		return nil, nil, false
+	}
+	name := opName(req.Op)
+	s.checkStore("request "+name+" prepared, not applied yet", false)
+	if !s.faultArmed {
+		return nil, nil, false
+	}
+	hit := s.caCount == s.faultPos
+	if s.faultFinal {
+		hit = name == "setboth" || name == "setroots"
+	}
+	s.caCount++
+	if !hit {
+		return nil, nil, false
+	}
+	s.faultArmed = false
+	mode := s.faultMode
+	if mode != "error" && name != "setboth" && name != "setroots" {
+		mode = "error"
+	}
+	s.run.Tag("fault:" + mode + ":" + name)
+	switch mode {
+	case "false":
+		return false, nil, true
+	case "cas-loser":
+		// a concurrent writer (e.g. the root pruning routine) replaces the root set first
+		idx, roots, _ := s.d.State().CARoots(nil)
+		var rs []*structs.CARoot
+		for _, rt := range roots {
+			c := *rt
+			rs = append(rs, &c)
+		}
+		s.d.ApplyCARaw(&structs.CARequest{Op: structs.CAOpSetRoots, Index: idx, Roots: rs})
+		return nil, nil, false
+	}
+	return nil, fmt.Errorf("verif: raft apply failed (leadership lost)"), true
+}
+
+// arm chooses a fault for the next manager operation.
+func (s *sess) arm(r *hx.RNG) {
+	s.faultArmed, s.caCount = true, 0
+	s.faultFinal = r.Chance(60)
+	s.faultPos = r.Intn(6)
+	s.faultMode = hx.Pick(r, []string{"error", "false", "cas-loser"})
+}
+
 func opName(op structs.CAOp) string {
 	switch op {
 	case structs.CAOpSetConfig:
@@ -358,6 +484,7 @@ func (s *sess) onCA(idx uint64, req *structs.CARequest, resp interface{}) {
 	s.line(s.fmtCA(idx, req), res+" | "+cur.String())
 	s.monitorCA(s.prev, cur, idx, req, resp, name)
 	s.prev = cur
+	s.lastDeep = s.deep()
 }
 
 func (s *sess) monitorCA(prev, cur caSnap, idx uint64, req *structs.CARequest, resp interface{}, name string) {
@@ -1176,12 +1303,18 @@ func (s *sess) rememberRoot() {
 func (s *sess) update(conf map[string]interface{}, modIdx uint64, force bool, tag string) error {
 	err := s.m.UpdateConfiguration(&structs.CARequest{Config: &structs.CAConfiguration{Provider: "consul", Config: copyConf(conf),
 		ForceWithoutCrossSigning: force, RaftIndex: structs.RaftIndex{ModifyIndex: modIdx}}})
+	faulted := s.faultArmed || s.caCount > 0
+	s.faultArmed, s.caCount = false, 0
+	res := ":ok"
 	if err != nil {
-		s.run.Tag("mgr:" + tag + ":error")
-	} else {
-		s.run.Tag("mgr:" + tag + ":ok")
+		res = ":error"
 	}
+	if faulted {
+		res += ":fault-injected"
+	}
+	s.run.Tag("mgr:" + tag + res)
 	s.mgrLine()
+	s.checkStore("after "+tag+res, true)
 	return err
 }
 
@@ -1204,10 +1337,12 @@ func managerSession(run *hx.Run, r *hx.RNG, nops int) {
 		panic(err)
 	}
 	s.mgrLine()
+	s.checkStore("after Initialize", true)
 	s.rememberRoot()
 	for i := 0; i < nops; i++ {
 		switch k := r.Intn(1000); {
 		case k < 880:
+			s.checkStore("before sign", true)
 			s.genSign(r)
 		case k < 905: // rotation to another key (new root, cross-signed by the old one)
 			nk := (s.curKey + 1 + r.Intn(len(caKeys)-1)) % len(caKeys)
@@ -1218,6 +1353,9 @@ func managerSession(run *hx.Run, r *hx.RNG, nops int) {
 			if p, ok := s.rootPEM[nk]; ok && r.Chance(60) {
 				conf["RootCert"] = p // rotate back to a root that is still in the table (same root id)
 				tag = "rotate-back-to-earlier-root"
+			}
+			if r.Chance(40) {
+				s.arm(r)
 			}
 			if err := s.update(conf, 0, r.Chance(25), tag); err == nil {
 				s.conf, s.curKey = conf, nk
@@ -1236,6 +1374,10 @@ func managerSession(run *hx.Run, r *hx.RNG, nops int) {
 					mi = cur.ModifyIndex - 1 - uint64(r.Intn(2))
 					tag = "config-cas-stale"
 				}
+			}
+			if r.Chance(25) {
+				s.arm(r)
+				s.faultFinal = false
 			}
 			if err := s.update(conf, mi, false, tag); err == nil {
 				s.conf = conf
@@ -1292,6 +1434,7 @@ func managerSession(run *hx.Run, r *hx.RNG, nops int) {
 			s.d.Index += uint64(r.Intn(50))
 			run.Tag("mgr:raft-index-gap")
 		}
+		s.checkStore("after operation", true)
 	}
 }
 
